@@ -436,19 +436,25 @@ class CircuitCompositeOperation(ICircuitCompositeOperation):
     def _resolve_composite_references(link: IRelationLink) -> IRelationLink:
         """
         :return: Relation link of which composite-operation reference nodes are replaced by their contained operations.
-        Only applies to 'FOLLOWED_BY' relations (follows the latest of the contained operations), otherwise returns link as is.
+        'FOLLOWED_BY' follows (and 'JOINED_END' ends with) the latest of the contained operations,
+        'JOINED_START' starts with the first of the contained operations (which starts when the composite operation starts).
         """
         reference_nodes: List[ICircuitOperation] = CircuitCompositeOperation._get_reference_nodes(link)
         contains_composite: bool = any(isinstance(node, ICircuitCompositeOperation) for node in reference_nodes)
-        if not contains_composite or link.relation_type != RelationType.FOLLOWED_BY:
+        if not contains_composite:
             return link
         resolved_nodes: List[ICircuitOperation] = [operation for node in reference_nodes for operation in node.decomposed_operations()]
         if len(resolved_nodes) == 0:
             return link
+        if link.relation_type == RelationType.JOINED_START:
+            return RelationLink(
+                _reference_node=resolved_nodes[0],
+                _relation_type=RelationType.JOINED_START,
+            )
         return MultiRelationLink(
             _reference_nodes=resolved_nodes,
             _relation_to_group=MultiRelationType.LATEST,
-            _relation_type=RelationType.FOLLOWED_BY,
+            _relation_type=link.relation_type,
         )
 
     def get_sub_composite_operations(self) -> List[ICircuitCompositeOperation]:
